@@ -182,6 +182,16 @@ func HNote(ctx erpc.PushCtx, arg *string) *erpc.Status {
 	return nil
 }
 
+// HCliNote is a push handler on the CLIENT peer: it parks until the scenario releases it (a slow
+// handler keeps readDisconnected waiting in graceCtxWait).
+func HCliNote(ctx erpc.PushCtx, arg *string) *erpc.Status {
+	if e := envOf(ctx.Peer()); e != nil {
+		atomic.AddInt32(&e.cliEntered, 1)
+		<-e.cliPark
+	}
+	return nil
+}
+
 // srvHello answers the client's handshake (handshake hook mode).
 type srvHello struct{ accepted int64 }
 
@@ -262,21 +272,25 @@ func (o *op) isDone() bool { return atomic.LoadInt32(&o.done) == 1 }
 type viol struct{ symptom, what string }
 
 type env struct {
-	sc      Scn
-	id      string
-	srv     erpc.Peer
-	srvLis  net.Listener
-	hello   *srvHello
-	fw      *fwd.Forwarder
-	cli     erpc.Peer
-	sess    erpc.Session
-	hook    *dialHook
-	park    chan struct{}
-	parkRel sync.Once
-	entered int32
-	handled int64
-	pushed  int64
-	paths   map[string]string
+	sc         Scn
+	id         string
+	srv        erpc.Peer
+	srvLis     net.Listener
+	hello      *srvHello
+	fw         *fwd.Forwarder
+	cli        erpc.Peer
+	sess       erpc.Session
+	hook       *dialHook
+	park       chan struct{}
+	parkRel    sync.Once
+	cliPark    chan struct{}
+	cliParkRel sync.Once
+	cliEntered int32
+	cliNote    string
+	entered    int32
+	handled    int64
+	pushed     int64
+	paths      map[string]string
 
 	mu       sync.Mutex
 	ops      []*op
@@ -287,7 +301,10 @@ type env struct {
 	frameC2S int64
 	frameS2C int64
 	srvWG    sync.WaitGroup
+	faultIdx int // number of hook records when the last fault was injected
 }
+
+func (e *env) markFault() { e.faultIdx = len(e.hook.snapshot()) }
 
 func (e *env) violate(symptom, format string, a ...interface{}) {
 	e.mu.Lock()
@@ -320,6 +337,7 @@ func (e *env) setup() error {
 	}
 	obs.reset(nil)
 	e.park = make(chan struct{})
+	e.cliPark = make(chan struct{})
 	// server
 	var plugins []erpc.Plugin
 	if sc.Hook == "handshake" {
@@ -360,6 +378,8 @@ func (e *env) setup() error {
 		e.hook.userID = "c13-user-" + e.id
 	}
 	e.cli = erpc.NewPeer(erpc.PeerConfig{RedialTimes: int32(sc.Budget), RedialInterval: time.Millisecond, DialTimeout: 5 * time.Second}, e.hook)
+	envs.Store(e.cli, e)
+	e.cliNote = e.cli.RoutePushFunc(HCliNote)
 	sess, st := e.cli.Dial(e.fw.Addr())
 	if !st.OK() {
 		return fmt.Errorf("dial: %v", st)
@@ -441,17 +461,37 @@ func waitOp(o *op, d time.Duration) bool {
 	}
 }
 
-const gateWait = 5 * time.Second
+// watchdogs only ever yield inconclusive; generous because the machine may be heavily loaded
+const gateWait = 20 * time.Second
+
+// matchHooks pairs every hook record with the forwarder's record of the same connection. Local
+// addresses can repeat within a scenario (ephemeral ports are reused), so records with the same
+// address are paired in order of occurrence. A connection attempt that failed inside the dialer
+// (reset before the dial completed) has a forwarder record but no hook record; that can only make a
+// pairing point at a refused record, never at a forwarded one that the hook did not run on.
+func (e *env) matchHooks() ([]hookRec, []*fwd.Rec) {
+	recs := e.hook.snapshot()
+	fw := e.fw.Records()
+	byAddr := map[string][]int{}
+	for i := range fw {
+		byAddr[fw[i].ClientAddr] = append(byAddr[fw[i].ClientAddr], i)
+	}
+	out := make([]*fwd.Rec, len(recs))
+	for i, r := range recs {
+		l := byAddr[r.Local]
+		if len(l) > 0 {
+			out[i] = &fw[l[0]]
+			byAddr[r.Local] = l[1:]
+		}
+	}
+	return recs, out
+}
 
 // hookedLive reports whether a redial hook returned OK (index >= from) on a forwarded connection that is still alive.
 func (e *env) hookedLive(from int) bool {
-	live := map[string]bool{}
-	for _, p := range e.fw.Live() {
-		live[p.ClientAddr()] = true
-	}
-	recs := e.hook.snapshot()
+	recs, m := e.matchHooks()
 	for i := from; i < len(recs); i++ {
-		if recs[i].IsRedial && recs[i].OK && live[recs[i].Local] {
+		if recs[i].IsRedial && recs[i].OK && m[i] != nil && m[i].Forwarded && !m[i].Ended {
 			return true
 		}
 	}
@@ -530,6 +570,28 @@ func (e *env) loss(round int) (inflight []*op) {
 		tR = gates.Park(point, e.matchClient)
 	case "drop":
 		tR = gates.Park(point, e.matchClient)
+	case "second-redial":
+		tR = gates.Park("rd.beforeSocketClose", e.matchClient)
+		tW = gates.Park("redialfn.beforeOk", e.matchClient)
+	case "redundant-redial":
+		tR = gates.Park("redialfn.beforeOk", e.matchClient)
+	case "slow-handler":
+		// no gates: a push handler running on the client keeps the reader waiting in readDisconnected
+		var ss erpc.Session
+		e.srv.RangeSession(func(x erpc.Session) bool { ss = x; return false })
+		if ss == nil {
+			e.inconclusive("no server-side session to push from")
+			return
+		}
+		note := "n"
+		if st := ss.Push(e.cliNote, &note); !st.OK() {
+			e.inconclusive("server push failed: %v", st)
+			return
+		}
+		if !bed.WaitUntil(gateWait, func() bool { return atomic.LoadInt32(&e.cliEntered) > 0 }) {
+			e.inconclusive("client push handler did not start")
+			return
+		}
 	}
 	if script == "w-redials-overlap" {
 		tW = gates.Park("redialfn.beforeOk", e.matchClient)
@@ -539,6 +601,7 @@ func (e *env) loss(round int) (inflight []*op) {
 	// the loss itself
 	switch sc.Base {
 	case "idle", "awaiting":
+		e.markFault()
 		pipe.Drop(sc.RST)
 	case "mid-write":
 		dir, frame := fwd.C2S, e.frameC2S
@@ -565,6 +628,9 @@ func (e *env) loss(round int) (inflight []*op) {
 		e.inconclusive("the fault did not trigger (frame shorter than the cut offset?)")
 		return
 	}
+	if sc.Base != "idle" && sc.Base != "awaiting" && script != "drop" {
+		e.markFault() // cut faults trigger on their own; the redial hook cannot have run before they did
+	}
 	if sc.Base == "big-stall" {
 		// the reader has seen the end of stream and runs readDisconnected while the writer is still
 		// blocked in its write; then the reset that a vanished peer sends for further data arrives
@@ -590,9 +656,7 @@ func (e *env) loss(round int) (inflight []*op) {
 		}
 		w := e.start(writerKind, "writer")
 		inflight = append(inflight, w)
-		if !sc.expectEnd() || sc.Budget != 0 {
-			waitOp(w, gateWait) // completes when the redial succeeded or failed; a blocked writer is judged at quiescence
-		}
+		waitOp(w, gateWait) // completes when the redial succeeded or failed; a blocked writer is judged at quiescence
 		shortQ()
 		tR.Release()
 	case "w-redials-overlap":
@@ -649,6 +713,71 @@ func (e *env) loss(round int) (inflight []*op) {
 		inflight = append(inflight, w)
 		shortQ()
 		tR.Release()
+	case "second-redial":
+		// a writer redials while the old reader is held before it closes the socket; the old reader then
+		// closes the fresh connection, the writer's re-send fails and it redials a second time while the
+		// reader that was started for the first fresh connection is only now entering its loop
+		if !tR.WaitArrived(gateWait) {
+			e.inconclusive("ordering infeasible: reader did not reach rd.beforeSocketClose")
+			return
+		}
+		w := e.start("call", "writer")
+		inflight = append(inflight, w)
+		if !tW.WaitArrived(gateWait) {
+			e.inconclusive("ordering infeasible: writer did not reach redialfn.beforeOk")
+			return
+		}
+		tR2 := gates.Park("ctx.get", e.matchClient)
+		tWw := gates.Park("write.beforeLock", e.matchClient)
+		tW2 := gates.Park("redialfn.afterReset", e.matchClient)
+		tR.Release()
+		shortQ() // the old reader closes the (new) socket and blocks on the session lock
+		tW.Release()
+		// the writer is held before its re-send until the reader started for the fresh connection is in its loop
+		if !tWw.WaitArrived(gateWait) || !tR2.WaitArrived(gateWait) {
+			e.inconclusive("ordering infeasible: re-send / new reader not reached")
+			return
+		}
+		tWw.Release()
+		if !tW2.WaitArrived(gateWait) {
+			e.inconclusive("ordering infeasible: second redial not reached")
+			return
+		}
+		tR2.Release()
+		shortQ() // the reader started for the first fresh connection now reads from the session's socket
+		tW2.Release()
+	case "slow-handler":
+		// the reader has marked the session and waits for the running handler; a call notices the
+		// closed session, runs its own redial round, then the handler returns and the reader goes on
+		shortQ()
+		w := e.start(writerKind, "writer")
+		inflight = append(inflight, w)
+		waitOp(w, gateWait)
+		shortQ()
+		e.cliParkRel.Do(func() { close(e.cliPark) })
+	case "redundant-redial":
+		// the reader is about to finish its redial (new connection installed) when a writer arrives: the
+		// writer remembers the NEW connection, finds the session not usable and, once it gets the lock,
+		// redials again, replacing a healthy connection; the reader of the replaced connection is held
+		// at the entry of readDisconnected until that second redial is complete
+		if !tR.WaitArrived(gateWait) {
+			e.inconclusive("ordering infeasible: reader did not reach redialfn.beforeOk")
+			return
+		}
+		tR2 := gates.Park("rd.enter", e.matchClient)
+		w := e.start(writerKind, "writer")
+		inflight = append(inflight, w)
+		shortQ()
+		tR.Release()
+		if !waitOp(w, gateWait) {
+			tR2.Release()
+			break // judged at quiescence
+		}
+		if !tR2.WaitArrived(gateWait) {
+			e.inconclusive("ordering infeasible: the reader of the replaced connection did not enter readDisconnected")
+			return
+		}
+		tR2.Release()
 	case "drop":
 		// loss during the redial: the fresh connection is killed while the redialing goroutine is held
 		if !tR.WaitArrived(gateWait) {
@@ -660,6 +789,7 @@ func (e *env) loss(round int) (inflight []*op) {
 			e.inconclusive("the forwarder did not see the redialed connection")
 			return
 		}
+		e.markFault()
 		e.fw.Current().Drop(sc.RST)
 		tR.Release()
 	}
@@ -671,7 +801,7 @@ func briefStuck(q quiesce.Result) []string {
 	for _, g := range q.Dump {
 		keep := false
 		for _, f := range g.Frames {
-			if strings.Contains(f, "henrylee2cn/erpc/v6.") {
+			if strings.Contains(f, "henrylee2cn/erpc/v6.") && !strings.Contains(f, "erpc/v6.init.") {
 				keep = true
 			}
 			if strings.Contains(f, "startReadAndHandle") && strings.Contains(g.State, "IO wait") {
@@ -683,7 +813,17 @@ func briefStuck(q quiesce.Result) []string {
 			gs = append(gs, g)
 		}
 	}
-	out := quiesce.Brief(gs)
+	var out []string
+	for _, g := range gs {
+		f := g.Frames
+		if len(f) > 14 {
+			f = f[:14]
+		}
+		for i := range f {
+			f[i] = strings.TrimPrefix(f[i], "github.com/henrylee2cn/erpc/v6")
+		}
+		out = append(out, "g"+g.ID+" ["+g.State+"] "+strings.Join(f, " < "))
+	}
 	if len(out) > 12 {
 		out = out[:12]
 	}
@@ -742,6 +882,9 @@ func (e *env) run() {
 			return
 		}
 		e.judgeOps(inflight, q, sc.expectEnd())
+		if len(e.viols) > 0 {
+			return // the session is wedged or misbehaved already; later clauses would only repeat it
+		}
 		if sc.expectEnd() {
 			e.judgeEnded(q)
 			return
@@ -756,9 +899,22 @@ func (e *env) run() {
 // judgeReconnected applies clause 2 after a loss from which the session must recover.
 func (e *env) judgeReconnected(hooksBefore int, id0 string) {
 	sc := e.sc
-	hooked := e.hookedLive(hooksBefore)
-	if hooked {
+	live := e.hookedLive(hooksBefore)
+	// the redial hook returned OK, after the last injected fault, on a connection the server accepted
+	hooked := false
+	recs, m := e.matchHooks()
+	for i := e.faultIdx; i < len(recs); i++ {
+		if recs[i].IsRedial && recs[i].OK && m[i] != nil && m[i].Forwarded {
+			hooked = true
+		}
+	}
+	if live {
 		core.Add("reconnects_at_quiescence", 1)
+	} else {
+		core.Add("not_reconnected_at_quiescence", 1)
+		core.Distinct("not_reconnected_sigs", sc.sig()+" status="+statusName(e.sess))
+	}
+	if hooked {
 		// same Session value, id kept, indexed
 		if sc.UserID {
 			if id := e.sess.ID(); id != id0 {
@@ -766,17 +922,17 @@ func (e *env) judgeReconnected(hooksBefore int, id0 string) {
 			}
 		}
 		if got, ok := e.cli.GetSession(e.sess.ID()); !ok || !sameSession(got, e.sess) {
-			e.violate("not-indexed", "after the redial hook returned OK and the process is quiescent, GetSession(%q) = (%v, %v): the session is not in the client peer's index", e.sess.ID(), got != nil, ok)
+			e.violate("not-indexed", "the redial hook returned OK on a connection accepted by the server, no fault was injected since, the process is quiescent, and GetSession(%q) does not return the session: it is not in the client peer's index (status=%s, live redialed connection: %v, close notified: %v)",
+				e.sess.ID(), statusName(e.sess), live, closeNotified(e.sess))
+			return
 		}
-	} else {
-		core.Add("not_reconnected_at_quiescence", 1)
 	}
 	// K consecutive calls on the same Session value
 	first := -1
 	var codes []int32
 	for i := 0; i < kCalls; i++ {
 		o := e.start("call", "later")
-		if !waitOp(o, 10*time.Second) {
+		if !waitOp(o, 30*time.Second) {
 			q := qwait()
 			if q.Quiescent && !o.isDone() {
 				e.violate("call-hung", "later call %d on the reconnected session is not complete at quiescence; blocked: %v", i, briefStuck(q))
@@ -835,6 +991,12 @@ func (e *env) judgeReconnected(hooksBefore int, id0 string) {
 // judgeEnded applies clause 4 (and "fails fast" for sessions without redial).
 func (e *env) judgeEnded(q quiesce.Result) {
 	sc := e.sc
+	if sc.Budget == 0 {
+		// not a redial-enabled session: only "fails fast" applies - a later operation completes with a
+		// connection error without dialing
+		e.judgeLater()
+		return
+	}
 	select {
 	case <-e.sess.CloseNotify():
 	default:
@@ -850,14 +1012,19 @@ func (e *env) judgeEnded(q quiesce.Result) {
 	if listed {
 		e.violate("still-indexed", "the session is still listed in the client peer's index after it ended")
 	}
-	// one later operation
+	e.judgeLater()
+}
+
+// judgeLater issues one operation on a session that has ended.
+func (e *env) judgeLater() {
+	sc := e.sc
 	before := e.fw.Attempts()
 	kind := sc.Writer
 	if kind == "" {
 		kind = "call"
 	}
 	o := e.start(kind, "later")
-	waitOp(o, 10*time.Second)
+	waitOp(o, 30*time.Second)
 	q2 := qwait()
 	if !q2.Quiescent {
 		e.inconclusive("watchdog: process not quiescent after the later %s", kind)
@@ -883,6 +1050,15 @@ func (e *env) judgeEnded(q quiesce.Result) {
 	}
 }
 
+func closeNotified(s erpc.Session) bool {
+	select {
+	case <-s.CloseNotify():
+		return true
+	default:
+		return false
+	}
+}
+
 func statusName(s erpc.Session) string {
 	v := erpc.VerifStatus(s)
 	if v >= 0 && int(v) < len(erpc.VerifStatusNames) {
@@ -893,41 +1069,35 @@ func statusName(s erpc.Session) string {
 
 // judgeHooks applies clause 3: every successful redial ran the redial hook exactly once.
 func (e *env) judgeHooks() {
-	recs := e.hook.snapshot()
+	recs, m := e.matchHooks()
 	e.mu.Lock()
 	oks := append([]string(nil), e.beforeOk...)
 	e.mu.Unlock()
-	fw := map[string]fwd.Rec{}
-	for _, r := range e.fw.Records() {
-		fw[r.ClientAddr] = r
-	}
-	perConn := map[string]int{}
-	redialOK := 0
-	for i, r := range recs {
-		if i == 0 {
-			continue // the initial dial
-		}
-		if r.IsRedial && r.OK {
-			redialOK++
-			perConn[r.Local]++
-		}
-	}
-	core.Add("redial_hook_ok", int64(redialOK))
-	core.Add("redials_completed", int64(len(oks)))
+	// chronological list of the connections on which the redial hook returned OK
+	var hooked []string
 	reconnects := 0
-	for _, a := range oks {
-		if r, ok := fw[a]; ok && r.Forwarded {
-			reconnects++
-			if perConn[a] != 1 {
-				e.violate("redial-hook-count", "the redial completed on connection %d (accepted by the server) but PostDial(isRedial=true) returned OK %d times on it", r.N, perConn[a])
+	for i, r := range recs {
+		if r.IsRedial && r.OK {
+			hooked = append(hooked, r.Local)
+			if m[i] != nil && m[i].Forwarded {
+				reconnects++
 			}
 		}
 	}
+	core.Add("redial_hook_ok", int64(len(hooked)))
+	core.Add("redials_completed", int64(len(oks)))
 	core.Add("reconnects_observed", int64(reconnects))
-	if len(oks) != redialOK && len(e.viols) == 0 {
-		// a hook that returned OK on a connection whose redial then did not complete is possible only
-		// when a later step of the closure failed; the closure has none, so the counts must agree
-		e.violate("redial-hook-count", "%d redials completed but PostDial(isRedial=true) returned OK %d times", len(oks), redialOK)
+	if len(e.viols) > 0 {
+		return
+	}
+	// every completed redial (redialfn.beforeOk) is preceded, in the same closure invocation, by exactly
+	// one OK return of PostDial(isRedial=true) on the same connection: the two chronological lists agree
+	same := len(oks) == len(hooked)
+	for i := 0; same && i < len(oks); i++ {
+		same = oks[i] == hooked[i]
+	}
+	if !same {
+		e.violate("redial-hook-count", "%d redials completed (connections %v) but PostDial(isRedial=true) returned OK %d times (connections %v)", len(oks), oks, len(hooked), hooked)
 	}
 }
 
@@ -976,8 +1146,14 @@ func (e *env) gateSig() (string, int) {
 
 func (e *env) cleanup() bool {
 	e.parkRel.Do(func() { close(e.park) })
+	e.cliParkRel.Do(func() { close(e.cliPark) })
 	gates.Reset()
 	obs.reset(nil)
+	if e.fw != nil {
+		// the server is reachable again: a session that is still redialing can finish and be closed
+		e.fw.Refuse(0, false)
+		e.fw.Up()
+	}
 	done := make(chan struct{})
 	go func() {
 		if e.sess != nil {
@@ -988,12 +1164,24 @@ func (e *env) cleanup() bool {
 		}
 		close(done)
 	}()
-	clean := true
-	select {
-	case <-done:
-	case <-time.After(10 * time.Second):
-		clean = false
+	closed := func(d time.Duration) bool {
+		select {
+		case <-done:
+			return true
+		case <-time.After(d):
+			return false
+		}
+	}
+	if !closed(2 * time.Second) {
 		core.Add("cleanup_close_blocked", 1)
+		// a wedged session (e.g. a hook waiting for a reply that was consumed elsewhere): break its
+		// connections but keep the server reachable, so that whatever holds the session lock can finish
+		if e.fw != nil {
+			e.fw.KillAll()
+		}
+		if !closed(20 * time.Second) {
+			core.Add("cleanup_close_still_blocked", 1)
+		}
 	}
 	if e.fw != nil {
 		e.fw.Close()
@@ -1006,14 +1194,19 @@ func (e *env) cleanup() bool {
 		go func() { e.srv.Close(); close(d2) }()
 		select {
 		case <-d2:
-		case <-time.After(10 * time.Second):
+		case <-time.After(20 * time.Second):
 			core.Add("cleanup_server_close_blocked", 1)
 		}
 		envs.Delete(e.srv)
 	}
+	if e.cli != nil {
+		envs.Delete(e.cli)
+	}
 	e.srvWG.Wait()
-	q := quiesce.Wait(quiesce.Options{Samples: 3, Interval: 5 * time.Millisecond, Timeout: 10 * time.Second})
-	return clean && q.Quiescent
+	closed(time.Second)
+	// goroutines that stay blocked for ever do not disturb later quiescence decisions; running ones do
+	q := quiesce.Wait(quiesce.Options{Samples: 3, Interval: 5 * time.Millisecond, Timeout: 20 * time.Second})
+	return q.Quiescent
 }
 
 func runScenario(id string, sc Scn) (dirty bool) {
@@ -1036,7 +1229,7 @@ func runScenario(id string, sc Scn) (dirty bool) {
 	}
 	core.Add("handler_runs", atomic.LoadInt64(&e.handled))
 	witness := map[string]interface{}{}
-	if len(e.viols) > 0 || *verbose {
+	if len(e.viols) > 0 || e.incon != "" || *verbose {
 		witness["gate_hits"] = sig
 		witness["hook"] = e.hook.snapshot()
 		if e.fw != nil {
@@ -1065,6 +1258,10 @@ func runScenario(id string, sc Scn) (dirty bool) {
 		b, _ := json.Marshal(witness)
 		fmt.Fprintf(os.Stderr, "%s %s viols=%v incon=%q\n   %s\n", id, sc.sig(), e.viols, e.incon, b)
 	}
+	if e.incon == "" {
+		core.Distinct("nontrivial", sc.sig())
+		core.Distinct("interleavings", sig)
+	}
 	switch {
 	case len(e.viols) > 0:
 		for i, v := range e.viols {
@@ -1078,10 +1275,8 @@ func runScenario(id string, sc Scn) (dirty bool) {
 		}
 	case e.incon != "":
 		core.Add("inconclusive_"+strings.SplitN(e.incon, ":", 2)[0], 1)
-		core.Result(core.R{ID: id, Verdict: core.Inconclusive, What: e.incon, Desc: sc})
+		core.Result(core.R{ID: id, Verdict: core.Inconclusive, What: e.incon, Witness: witness, Desc: sc})
 	default:
-		core.Distinct("nontrivial", sc.sig())
-		core.Distinct("interleavings", sig)
 		core.Result(core.R{ID: id, Verdict: core.Held})
 	}
 	return !clean
